@@ -32,7 +32,10 @@ EXPLANATION = (
     'ESCAPE_SEQUENCE_SINGLE_RE - and the f-string->plain rewrite is unreachable for a value matching the interpreter substitution '
     'regex; R3 every statement that discards whitespace content (fresh value, `= None`, popped comma, replaced argument list) is '
     'unreachable when the discarded owner holds a comment, or the content was moved/re-appended first, or a checked justification '
-    'applies (the dedent helper must be a suffix removal also for an empty indentation unit); R4 in run() the check-mode status is '
+    'applies (the dedent helper must be a suffix removal also for an empty indentation unit); where the whitespace text is cut into '
+    'pieces that are trimmed (strip family) before they are re-appended, every cut character of the splitter (str.splitlines: its '
+    'documented boundary table; str.split(C): C) must be one that no match of the lexer `comment` token regex can contain, otherwise the '
+    'character and the blanks next to it vanish from the comment text; R4 in run() the check-mode status is '
     'set iff the text read differs from the text that would be written, every sink receives the formatter output unchanged, and the '
     'loop over the sources stops early only after a difference was recorded; R5 no path sorts an argument list and then replaces it '
     '(the installed files() arguments would stay unsorted until the next run); R6 the printer emits the undecoded token text of a plain '
@@ -57,14 +60,17 @@ EXPLANATION = (
     'for a triple-quoted f-string that is simplified in the same visit (its value is re-derived by escape() before the test), whether a '
     'backslash continuation keeps its newline inside brackets (needs the value correlation between the per-line comment table and the '
     'line text), the interplay no_single_comma_function / trailing-comma-means-multiline across two runs, and the order in which '
-    'comments travel with sorted files() arguments (documented behaviour).')
+    'comments travel with sorted files() arguments (documented behaviour), and text *inserted* at a piece boundary of a splitlines() cut '
+    'whose pieces are re-appended untrimmed (ArgumentFormatter.visit_WhitespaceNode puts the indentation before a piece that contains `#`: '
+    'after a form feed inside a comment whose rest holds a `#` - reachable only once TrimWhitespaces keeps that character).')
 ASSUMPTIONS = [
     'the parser attaches trivia (comments, blanks) only to token-level nodes; composite nodes (ArrayNode, ArgumentNode) receive '
     'whitespace only through the formatter own move_whitespaces, so replacing a composite drops only what its symbol tokens own',
     'indent_by / indent_before_comments are whitespace-only strings, possibly empty (documented as indentation)',
     'a comment token runs to the end of its line, so whitespace that holds a comment holds a newline after it',
     'len(ArgumentNode.colons) == len(ArgumentNode.kwargs) (asserted by FullAstVisitor.visit_ArgumentNode)',
-    'str methods, len, any/all and the re module behave as documented',
+    'str methods, len, any/all and the re module behave as documented (str.splitlines cuts exactly at its documented boundary table; '
+    'strip() without argument removes str.isspace characters)',
     'the replacement callback of StringNode.escape never maps an escape sequence to its own spelling (escape() == value iff no match)',
 ]
 TECHNIQUE = ('who-may-write classification by node types resolved from annotations; path enumeration with guard atoms decided three-valued in '
@@ -1423,6 +1429,53 @@ def _minlen(e: ast.AST, var: str, sdefs: T.Dict[str, ast.AST], depth: int = 0) -
     return None
 
 
+# str.splitlines: the documented line-boundary table (Library Reference, str.splitlines); '\r\n' is the pair of two members
+SPLITLINES_BOUNDARIES = ['\n', '\r', '\x0b', '\x0c', '\x1c', '\x1d', '\x1e', '\x85', '\u2028', '\u2029']
+SPLITTERS = ('splitlines', 'split')
+_CUT_SEEN: T.Set[T.Tuple[int, str]] = set()
+_CUT_PROBLEMS: T.Dict[T.Tuple[int, str], str] = {}
+
+
+def _splitter_cuts(call: ast.Call) -> T.Optional[T.List[str]]:
+    """The characters at which `X.splitlines(..)` / `X.split(C)` (C a constant one-character string, no maxsplit) cuts X into
+    pieces; None for any other splitter."""
+    if not isinstance(call.func, ast.Attribute):
+        return None
+    if call.func.attr == 'splitlines':
+        return list(SPLITLINES_BOUNDARIES)
+    if call.func.attr == 'split':
+        seps = list(call.args[:1]) + [k.value for k in call.keywords if k.arg == 'sep']
+        if len(call.args) <= 1 and all(k.arg == 'sep' for k in call.keywords) and len(seps) == 1 \
+                and isinstance(seps[0], ast.Constant) and isinstance(seps[0].value, str) and len(seps[0].value) == 1:
+            return [seps[0].value]
+    return None
+
+
+def _cut_inside_comment(ctx: RuleCtx, qn: str, splitter: T.Optional[ast.Call], trim: ast.Call) -> T.Optional[str]:
+    """The pieces of the whitespace text are trimmed (`piece = piece.strip()`) before they are re-appended: a piece boundary inside a
+    comment token loses the boundary character (every str.splitlines boundary is str.isspace) and the blanks next to it.  The
+    comment token is a full match of the lexer `comment` regex, so a cut is harmless iff no match of that regex contains the cut
+    character (regex-language fact).  Returns the problem text ('!' prefix) or None."""
+    if not (rx.matches_char(r'#.*', '\x0c') and not rx.matches_char(r'#.*', '\n')):
+        raise Undecided('self-check: `#.*` must be able to contain a form feed and unable to contain a newline')
+    cuts = _splitter_cuts(splitter) if splitter is not None else None
+    if cuts is None:
+        raise Undecided(f'{qn}: the pieces trimmed by `{short(trim)}` come from a splitter whose cut characters the rule does not know: '
+                        f'{short(splitter) if splitter is not None else "?"}')
+    cre = _token_regex(ctx, 'comment')
+    inside = [c for c in cuts if c.isspace() and rx.matches_char(cre.pattern, c, cre.flags)]
+    if inside:
+        return (f'!{splitter.func.attr}(..) pieces -> {trim.func.attr}() -> re-appended  [cut inside a comment token]|'  # type: ignore[union-attr]
+                f'`{norm(splitter.func.value)}.{splitter.func.attr}(..)` also cuts the whitespace text at {", ".join(repr(c) for c in inside)}, characters a comment token '  # type: ignore[union-attr]
+                f'(lexer regex {cre.pattern!r}) can contain, and every piece is trimmed by `{short(trim)}` before it is re-appended: the character and the '
+                'blanks around it vanish from the comment text (only a cut at a character the comment regex cannot match, the newline, is outside every comment)')
+    key = (id(ctx), qn)
+    if key not in _CUT_SEEN:
+        _CUT_SEEN.add(key)
+        ctx.ok(f'{qn}: the trimmed pieces are cut only at {cuts!r}, which no comment token ({cre.pattern!r}) can contain')
+    return None
+
+
 def _rebuild_ok(ctx: RuleCtx, p: Pass, qn: str, fn: ast.FunctionDef, site: ast.stmt, loc: str, var: str) -> T.Optional[str]:
     """`var = LOC.splitlines(..)`; LOC reset; every element of var re-appended to LOC - directly, or accumulated in a local
     that is stored into LOC at the site, or mapped by a comprehension in the stored value.  Returns a problem text (a concrete
@@ -1486,12 +1539,14 @@ def _rebuild_ok(ctx: RuleCtx, p: Pass, qn: str, fn: ast.FunctionDef, site: ast.s
             parents[id(ch)] = n
     loops: T.List[ast.For] = []
     zip_pos: T.Dict[int, int] = {}
+    splitter: T.Optional[ast.Call] = None
     for u in uses:
         par = parents.get(id(u))
         if isinstance(u.ctx, ast.Store):
             if not (isinstance(par, ast.Assign) and isinstance(par.value, ast.Call) and isinstance(par.value.func, ast.Attribute)
-                    and par.value.func.attr == 'splitlines' and norm(par.value.func.value) == loc):
+                    and par.value.func.attr in SPLITTERS and norm(par.value.func.value) == loc):
                 raise Undecided(f'{qn}: `{var}` is rebound in a way the rebuild idiom does not cover')
+            splitter = par.value
             continue
         if isinstance(par, (ast.If, ast.While, ast.UnaryOp, ast.BoolOp)):
             continue                                   # truth test
@@ -1590,6 +1645,10 @@ def _rebuild_ok(ctx: RuleCtx, p: Pass, qn: str, fn: ast.FunctionDef, site: ast.s
                 if not (isinstance(v, ast.Call) and isinstance(v.func, ast.Attribute) and v.func.attr in ('strip', 'rstrip', 'lstrip', 'expandtabs')
                         and norm(v.func.value) == lv.id and not v.args):
                     raise Undecided(f'{qn}: the line variable is rebound by `{short(st)}`')
+                if v.func.attr != 'expandtabs':
+                    cut = _cut_inside_comment(ctx, qn, splitter, v)
+                    if cut:                 # reported by the caller next to (not instead of) a line the loop may lose
+                        _CUT_PROBLEMS[(id(ctx), qn)] = cut
             if isinstance(st, ast.AugAssign) and isinstance(st.op, ast.Add) and norm(st.target) == tgt and any(isinstance(x, ast.Name) and x.id == lv.id for x in ast.walk(st.value)):
                 appended = True
             if isinstance(st, ast.Expr) and grows(st.value, tgt) and any(isinstance(x, ast.Name) and x.id == lv.id for a in st.value.args for x in ast.walk(a)):  # type: ignore[attr-defined]
@@ -1911,7 +1970,7 @@ def _judge_site(ctx: RuleCtx, p: Pass, qn: str, fn: ast.FunctionDef, s: Site, w:
                 if tk != loc and tk.endswith('.value') and loc in leaves:
                     notes['moved'] = short(st, 70)
             if isinstance(st, ast.Assign) and len(st.targets) == 1 and isinstance(st.targets[0], ast.Name) and isinstance(st.value, ast.Call) \
-                    and isinstance(st.value.func, ast.Attribute) and st.value.func.attr == 'splitlines' and norm(sub(st.value.func.value)) == loc:
+                    and isinstance(st.value.func, ast.Attribute) and st.value.func.attr in SPLITTERS and norm(sub(st.value.func.value)) == loc:
                 notes['captured'] = st.targets[0].id
             if isinstance(st, ast.Assign) and len(st.targets) == 1 and isinstance(st.targets[0], ast.Name) and norm(sub(st.value)) == parent:
                 notes['alias'] = st.targets[0].id      # the whitespace node itself is kept in a local before it is unlinked
@@ -1944,6 +2003,12 @@ def _judge_site(ctx: RuleCtx, p: Pass, qn: str, fn: ast.FunctionDef, s: Site, w:
                 continue
             if r.notes.get('captured'):
                 prob = _rebuild_ok(ctx, p, qn, fn, s.stmt, norm(w.node), r.notes['captured'])
+                cut = _CUT_PROBLEMS.pop((id(ctx), qn), None)
+                if cut is not None:
+                    ctx.violation(p.mod, qn, cut[1:].split('|', 1)[0], cut.split('|', 1)[1], s.stmt,
+                                  witness='x = 1  # see page\\x0c2  ->  x = 1  # see page2')
+                    if prob is None:
+                        return 'violation'
                 if prob is None:
                     how.add('rebuilt')
                     continue
